@@ -19,6 +19,7 @@ func init() {
 }
 
 func ruleInput(c *Ctx) {
+	finishFresh(c)
 	sp := specialFieldMap(c)
 	nr, fnr := "", ""
 	if f := sp["V_NR"]; len(f) > 0 {
